@@ -581,20 +581,20 @@ theorem sp_stateFn_grammar_end {F : Text} (hF : TrE F) :
   case hi => rfl
   case hk => simp
 
-theorem sp_stateFn_gdocInner' {l rest : Text} (h : NoLF l) (hd : DocEnd l rest) :
-    Sp (stateFn .grammarDocInner) (l ++ rest) (some .grammar) rest [(.commentText, l)] := by
+theorem sp_stateFn_gdocInner' {sp l rest : Text} (hsp : DocSp sp l) (h : NoLF l) (hd : DocEnd l rest) :
+    Sp (stateFn .grammarDocInner) (sp ++ (l ++ rest)) (some .grammar) rest [(.commentText, l)] := by
   unfold stateFn
   sp_begin
-  sp_step (sp_docInner' h hd)
+  sp_step (sp_docInner' hsp h hd)
   exact Sp.pure _ _
   case hi => rfl
   case hk => simp
 
-theorem sp_stateFn_rdocInner' {l rest : Text} (h : NoLF l) (hd : DocEnd l rest) :
-    Sp (stateFn .ruleDocInner) (l ++ rest) (some .grammarRule) rest [(.commentText, l)] := by
+theorem sp_stateFn_rdocInner' {sp l rest : Text} (hsp : DocSp sp l) (h : NoLF l) (hd : DocEnd l rest) :
+    Sp (stateFn .ruleDocInner) (sp ++ (l ++ rest)) (some .grammarRule) rest [(.commentText, l)] := by
   unfold stateFn
   sp_begin
-  sp_step (sp_docInner' h hd)
+  sp_step (sp_docInner' hsp h hd)
   exact Sp.pure _ _
   case hi => rfl
   case hk => simp
@@ -624,8 +624,8 @@ theorem RunOK'.mono {n m : Nat} {fn : Fn} {inp : Text} {K : List KV} (h : RunOK'
 
 theorem run_docs' (outer inner : Fn) (marker : TK) (m : Text) (hmv : Verb marker)
     (hO : ∀ F X, Tr F (m ++ X) → Sp (stateFn outer) F (some inner) X [(marker, m)])
-    (hI : ∀ l rest, NoLF l → DocEnd l rest →
-      Sp (stateFn inner) (l ++ rest) (some outer) rest [(.commentText, l)]) :
+    (hI : ∀ sp l rest, DocSp sp l → NoLF l → DocEnd l rest →
+      Sp (stateFn inner) (sp ++ (l ++ rest)) (some outer) rest [(.commentText, l)]) :
     ∀ (docs : List Text), (∀ l ∈ docs, NoLF l) → ∀ (n : Nat) (F t tl : Text) (K : List KV),
     DocsText' m docs t tl → Tr F t → (∀ F', Tr F' tl → RunOK' n outer F' K) →
     RunOK' (n + 2 * docs.length) outer F ((docs.map (docKV marker m)).flatten ++ K) := by
@@ -639,13 +639,13 @@ theorem run_docs' (outer inner : Fn) (marker : TK) (m : Text) (hmv : Verb marker
   | cons l docs ih =>
     intro hd n F t tl K hdt hF hk
     have hl : NoLF l := hd l (by simp)
-    obtain ⟨ws, t', hws, rfl, hde, hrest⟩ := hdt
+    obtain ⟨sp, ws, t', hsp, hws, rfl, hde, hrest⟩ := hdt
     have ih' := ih (fun l' h' => hd l' (by simp [h'])) n (ws ++ t') t' tl K hrest
       (Tr.mk hws t') hk
     have e : n + 2 * (l :: docs).length = (n + 2 * docs.length) + 1 + 1 := by simp; omega
     rw [e]
     exact RunOK'.step (up (hO F _ hF) (.cons (actKV_verb hmv) .nil))
-      (RunOK'.step (up (hI l _ hl hde)) ih' rfl) (by simp [docKV])
+      (RunOK'.step (up (hI sp l _ hsp hl hde)) ih' rfl) (by simp [docKV])
 
 theorem run_rdocs' : ∀ (docs : List Text), (∀ l ∈ docs, NoLF l) →
     ∀ (n : Nat) (F t tl : Text) (K : List KV),
@@ -653,7 +653,7 @@ theorem run_rdocs' : ∀ (docs : List Text), (∀ l ∈ docs, NoLF l) →
     RunOK' (n + 2 * docs.length) .grammarRule F
       ((docs.map (docKV .ruleDoc sRDOC)).flatten ++ K) :=
   run_docs' .grammarRule .ruleDocInner .ruleDoc sRDOC (by decide)
-    (fun _ _ hF => sp_stateFn_rdoc_g hF) (fun _ _ h hd => sp_stateFn_rdocInner' h hd)
+    (fun _ _ hF => sp_stateFn_rdoc_g hF) (fun _ _ _ hsp h hd => sp_stateFn_rdocInner' hsp h hd)
 
 theorem run_gdocs' : ∀ (docs : List Text), (∀ l ∈ docs, NoLF l) →
     ∀ (n : Nat) (F t tl : Text) (K : List KV),
@@ -661,7 +661,7 @@ theorem run_gdocs' : ∀ (docs : List Text), (∀ l ∈ docs, NoLF l) →
     RunOK' (n + 2 * docs.length) .grammar F
       ((docs.map (docKV .grammarDoc sGDOC)).flatten ++ K) :=
   run_docs' .grammar .grammarDocInner .grammarDoc sGDOC (by decide)
-    (fun _ _ hF => sp_stateFn_gdoc_g hF) (fun _ _ h hd => sp_stateFn_gdocInner' h hd)
+    (fun _ _ hF => sp_stateFn_gdoc_g hF) (fun _ _ _ hsp h hd => sp_stateFn_gdocInner' hsp h hd)
 
 theorem run_rules' : ∀ (rules : List SRule), (∀ r ∈ rules, r.WF') →
     ∀ (n : Nat) (F t tl : Text) (K : List KV), RulesText' rules t tl → Tr F t →
@@ -702,7 +702,7 @@ theorem ruleStart' : ∀ (rules : List SRule), (∀ r ∈ rules, r.WF') → ∀ 
   have docStart : ∀ (l : Text) (ls : List Text) {t tl : Text}, DocsText' sRDOC (l :: ls) t tl →
       RuleStart t := by
     intro l ls t tl h
-    obtain ⟨ws, t', _, rfl, _, _⟩ := h
+    obtain ⟨sp, ws, t', _, _, rfl, _, _⟩ := h
     exact Or.inr (Or.inr ⟨_, by simp [sRDOC]; rfl⟩)
   cases rules with
   | nil =>
@@ -750,7 +750,7 @@ theorem docsText'_length {m : Text} (hm : 2 ≤ m.length) : ∀ (docs : List Tex
   | nil => intro t tl h; have : t = tl := h; subst this; simp
   | cons l ls ih =>
     intro t tl h
-    obtain ⟨ws, t', _, rfl, _, hrest⟩ := h
+    obtain ⟨sp, ws, t', _, _, rfl, _, hrest⟩ := h
     have := ih hrest
     simp; omega
 
@@ -853,7 +853,7 @@ theorem text_layout : GrammarText' grammar text := by
       ⟨[92, 110], rfl, .esc (e := [110]) (v := 10) (.simple 110 10 rfl) .nil⟩ .nil <|
     Sc'.cons (w := [123]) (ws := []) _ rfl .nil <|
     Sc'.cons (w := [48, 48, 55]) (ws := []) _
-      ⟨7, rfl, by decide, by decide, by decide, by decide⟩ .nil <|
+      ⟨7, rfl, by decide, by decide, by decide⟩ .nil <|
     Sc'.cons (w := [125]) (ws := []) _ rfl .nil <|
     Sc'.cons (w := [126]) (ws := []) _ rfl .nil <|
     Sc'.cons (w := [94, 32, 34, 120, 34]) (ws := []) _
